@@ -58,3 +58,76 @@ def stale_handle_uses(f, handle_decl, decl_stmt):
             if f.cfg.exists_path(ip, up, avoid=[dp]):
                 out.append((inv, u))
     return out
+
+
+MUTATORS = ('push_back', 'emplace_back', 'push_front', 'pop_back', 'pop_front', 'erase', 'insert', 'emplace', 'clear', 'resize', 'swap', 'operator=')
+
+
+def range_loops(f):
+    """CXXForRangeStmt statements of f with their range expression"""
+    return [st for st in f.stmts if st and st['k'] == 'CXXForRangeStmt']
+
+
+def local_copy_of_member(f, range_id):
+    """if the range expression is a local variable that was copy-initialised from a member container,
+    return (local decl, qualified member field, member access path)"""
+    x = f.s(f.strip_casts(range_id))
+    if not (x and x['k'] == 'DeclRefExpr' and x.get('dk') == 'Var'):
+        return None
+    for st in f.stmts:
+        if st and st['k'] == 'DeclStmt':
+            for d in st['decls']:
+                if d.get('d') == x['d'] and 'init' in d and not d.get('t', '').rstrip().endswith('&'):
+                    src = f.strip_casts(d['init'])
+                    fq = f.field_of(src)
+                    if fq:
+                        return d, fq, f.path(src)
+    return None
+
+
+def reaches_user(prog, g, depth=0, _seen=None):
+    """does g (transitively, through resolved calls incl. virtual overriders) invoke a std::function?"""
+    _seen = _seen if _seen is not None else set()
+    if g.key in _seen or depth > 6:
+        return False
+    _seen.add(g.key)
+    if q.invokes(g):
+        return True
+    for st in g.calls():
+        for h in prog.by_usr.get(st.get('usr'), ()):
+            if not h.parent_usr and reaches_user(prog, h, depth + 1, _seen):
+                return True
+        if st.get('virt'):
+            for o in prog.funcs.values():
+                if not o.parent_usr and any(ov['usr'] == st.get('usr') for ov in o.d.get('overrides', ())):
+                    if reaches_user(prog, o, depth + 1, _seen):
+                        return True
+    return False
+
+
+def callee_funcs(prog, st):
+    out = [h for h in prog.by_usr.get(st.get('usr'), ()) if not h.parent_usr]
+    if st.get('virt'):
+        for o in prog.funcs.values():
+            if not o.parent_usr and any(ov['usr'] == st.get('usr') for ov in o.d.get('overrides', ())):
+                out.append(o)
+    return out
+
+
+def mutates_field(prog, g, field_suffix, depth=0, _seen=None):
+    """does g (transitively) call a mutating container method on a field with this suffix?"""
+    _seen = _seen if _seen is not None else set()
+    if g.key in _seen or depth > 5:
+        return None
+    _seen.add(g.key)
+    for st in g.calls():
+        if st.get('fn') in MUTATORS and 'obj' in st:
+            fq = g.field_of(st['obj'])
+            if fq and fq.endswith(field_suffix):
+                return '%s at %s' % (st['fn'], g.loc(st['i']))
+    for st in g.calls():
+        for h in callee_funcs(prog, st):
+            r = mutates_field(prog, h, field_suffix, depth + 1, _seen)
+            if r:
+                return r
+    return None
